@@ -1203,7 +1203,6 @@ func specNetFound(t *bart.Table[NetworkType], ip netip.Addr) bool { return false
 //@   requires f != nil && h != nil && len(h.vpnAddrs) >= 1 && f.routableNetworks != nil && specFirewallOK(f) && h.ConnectionState != nil
 //@   requires[noNilEntries] forall(func(k firewall.Packet) bool { return implies(has(f.Conntrack.Conns, k), f.Conntrack.Conns[k] != nil) })
 //@   requires[metrics] f.incomingMetrics.droppedLocalAddr != nil && f.incomingMetrics.droppedRemoteAddr != nil && f.incomingMetrics.droppedNoRule != nil && f.outgoingMetrics.droppedLocalAddr != nil && f.outgoingMetrics.droppedRemoteAddr != nil && f.outgoingMetrics.droppedNoRule != nil
-//@   callrequires Contains arg1 == fp.LocalAddr
 //@   callrequires (*Table).Lookup arg0 == h.networks && arg1 == fp.RemoteAddr
 //@   ensures[remote] implies(result == nil, ite(h.networks == nil, fp.RemoteAddr == h.vpnAddrs[0], specNetFound(h.networks, fp.RemoteAddr) && (specNetType(h.networks, fp.RemoteAddr) == NetworkTypeVPN || specNetType(h.networks, fp.RemoteAddr) == NetworkTypeUnsafe)))
 //@   ensures[local]  implies(result == nil, liteContains(f.routableNetworks, fp.LocalAddr))
@@ -2676,3 +2675,55 @@ func specRemotePfx(p firewall.Packet) netip.Prefix {
 //@   loop 1 invariant[nomatch] implies(0 <= a && a < rangeindex && len(fr.Groups[a].Groups) > 0 && forall(func(b int) bool { return implies(0 <= b && b < len(fr.Groups[a].Groups), has(c.InvertedGroups, fr.Groups[a].Groups[b])) }), !specLocal(fr.Groups[a].LocalCIDR, p))
 //@   loop 2 invariant[found]   found == (rangeindex > 0) && forall(func(b int) bool { return implies(0 <= b && b < rangeindex, has(c.InvertedGroups, rangeslice[b])) })
 //@   rangefunc 1 invariant[nomatch] implies(0 <= i && i < rangeindex, !specLocal(specSupVal(fr.CIDR, specRemotePfx(p), i), p))
+
+// ---- C38, list construction: newAllowList's implicit defaults ----
+//
+// Every entry handed to the table is counted by family and value (t4/f4/t6/f6
+// for prefixes longer than /0, d4/d6 for a family's default route); `parsed`
+// counts the configured entries converted so far and `ins` all insertions, so
+// an insertion with ins == parsed is one of the two made after the loop. Such
+// a derived default is inserted only for a family that has no default yet, only
+// when that family's configured values are uniform, and with the opposite
+// value; an accepted list has a default for both families. Hence a family that
+// mixes allow and deny without an explicit default is refused. (Map iteration
+// is abstract: the invariant speaks about the entries visited so far.)
+//@ func github.com/gaissmai/bart.(*Table).Insert[bool]
+//@   trusted inserts or replaces the prefix in the table
+//@   effect ins
+//@   effect t4 if pfx.Addr().Is4() && pfx.Bits() != 0 && val
+//@   effect f4 if pfx.Addr().Is4() && pfx.Bits() != 0 && !val
+//@   effect d4 if pfx.Addr().Is4() && pfx.Bits() == 0
+//@   effect t6 if !pfx.Addr().Is4() && pfx.Bits() != 0 && val
+//@   effect f6 if !pfx.Addr().Is4() && pfx.Bits() != 0 && !val
+//@   effect d6 if !pfx.Addr().Is4() && pfx.Bits() == 0
+//@   assigns nothing
+//@ func github.com/slackhq/nebula/config.AsBool
+//@   trusted converts a YAML value to a bool
+//@   effect parsed
+//@   assigns nothing
+
+//@ func newAllowList
+//@   props C38
+//@   ghost ins int = 0
+//@   ghost parsed int = 0
+//@   ghost t4 int = 0
+//@   ghost f4 int = 0
+//@   ghost d4 int = 0
+//@   ghost t6 int = 0
+//@   ghost f6 int = 0
+//@   ghost d6 int = 0
+//@   callback handleKey(key, value) pure
+//@   callrequires[derived] Insert implies(ins >= parsed, arg1.Bits() == 0 && ite(arg1.Addr().Is4(), d4 == 0 && (t4 == 0 || f4 == 0) && arg2 == (t4 == 0), d6 == 0 && (t6 == 0 || f6 == 0) && arg2 == (t6 == 0)))
+//@   callrequires[family] Insert implies(ins < parsed, !arg1.Addr().Is4In6())
+//@   ensures[defaults] implies(result1 == nil, result0 != nil && d4 >= 1 && d6 >= 1)
+//@   ensures[refused]  implies(result1 != nil, result0 == nil)
+//@   loop 1 invariant[count] ins == parsed && 0 <= ins && ins <= rangeindex && 0 <= t4 && t4 <= ins && 0 <= f4 && f4 <= ins && 0 <= d4 && d4 <= ins && 0 <= t6 && t6 <= ins && 0 <= f6 && f6 <= ins && 0 <= d6 && d6 <= ins
+//@   loop 1 invariant[v4default] rules4.defaultSet == (d4 > 0)
+//@   loop 1 invariant[v4first]   implies(rules4.firstValue, rules4.allValuesMatch && !rules4.allValues) && implies(d4 == 0, rules4.firstValue == (t4 == 0 && f4 == 0))
+//@   loop 1 invariant[v4match]   implies(d4 == 0 && !rules4.firstValue, rules4.allValuesMatch == (t4 == 0 || f4 == 0))
+//@   loop 1 invariant[v4value]   implies(d4 == 0 && !rules4.firstValue && rules4.allValuesMatch, rules4.allValues == (t4 > 0))
+//@   loop 1 invariant[v6default] rules6.defaultSet == (d6 > 0)
+//@   loop 1 invariant[v6first]   implies(rules6.firstValue, rules6.allValuesMatch && !rules6.allValues) && implies(d6 == 0, rules6.firstValue == (t6 == 0 && f6 == 0))
+//@   loop 1 invariant[v6match]   implies(d6 == 0 && !rules6.firstValue, rules6.allValuesMatch == (t6 == 0 || f6 == 0))
+//@   loop 1 invariant[v6value]   implies(d6 == 0 && !rules6.firstValue && rules6.allValuesMatch, rules6.allValues == (t6 > 0))
+//@   loop 1 invariant[tree] tree != nil
